@@ -46,6 +46,15 @@ def vec_literal(body, vec_op):
         return None
     if o.kind == 'agg' and o.data[2]['agg'] == 'array':
         return o.data[2]['ops']
+    if o.kind == 'const' and not o.proj and isinstance(o.data, dict) and o.data.get('uneval_uid'):
+        # a `const TABLE: [..; N] = [..]` item: its own body builds the array
+        prog = getattr(body.facts, '_prog', None)
+        cb = prog.by_id.get(o.data['uneval_uid']) if prog else None
+        if cb is not None:
+            ro = single_origin(trace_local(cb, 0, (), through_calls=THROUGH))
+            if ro is not None and ro.kind == 'agg' and ro.data[2]['agg'] == 'array' and not ro.proj:
+                return [('@', cb, x) for x in ro.data[2]['ops']]
+        return None
     if o.kind != 'callres' or o.proj:
         return None
     c = o.data
@@ -74,6 +83,8 @@ def vec_literal(body, vec_op):
 
 def elem_value(body, op):
     """value of one literal element: const or tuple of consts"""
+    if isinstance(op, tuple) and op and op[0] == '@':
+        body, op = op[1], op[2]       # element of a const item: evaluated in the const's own body
     v = _const_val(body, op)
     if v is not None:
         return v
@@ -123,6 +134,17 @@ def handler_closure(prog, body, op):
             return a.data[2]['closure']
         if a is not None and a.kind == 'const' and 'fn' in a.data:
             return a.data['fn']['uid']
+    return None
+
+
+def handler_elem(prog, body, op):
+    """handler = Arc::new(f) where f is the fn-pointer component of the table element being registered:
+    the 'elem' descriptor whose values are 'fn:<uid>'"""
+    o = single_origin(trace_operand(body, op, through_calls=THROUGH))
+    if o is not None and o.kind == 'callres' and (o.data.callee or '').endswith('::new') and o.data.args:
+        av = arg_values(body, o.data.args[0])
+        if av is not None and av[0] == 'elem' and all(isinstance(v, str) and v.startswith('fn:') for v in av[3]):
+            return av
     return None
 
 
@@ -211,6 +233,10 @@ def builtin_rows(prog, rm):
                 if clo:
                     descs.append(('handler', clo, {}))
                     continue
+                he = handler_elem(prog, fb, a)
+                if he is not None:
+                    descs.append(('handler-elem', he))
+                    continue
                 hf = handler_factory(prog, fb, a)
                 if hf is not None:
                     bd = {i: arg_values(fb, x) for i, x in hf[1].items()}
@@ -234,7 +260,11 @@ def builtin_rows(prog, rm):
                     n = len(f[3]) if n is None else n
             clo = None
             bind = {}
+            clo_elem = None
             for f in fields:
+                if f[0] == 'handler-elem':
+                    clo_elem = f[1]
+                    n = len(clo_elem[3]) if n is None else n
                 if f[0] == 'handler':
                     clo = f[1]
                     bind = f[2] if len(f) > 2 else {}
@@ -250,8 +280,8 @@ def builtin_rows(prog, rm):
             leafw = w
             for k in range(n or 1):
                 rows.append({'writer': w.name, 'filler': fb.name, 'name': val_of(key, k),
-                             'args': [val_of(f, k) for f in fields if f[0] != 'handler'],
-                             'closure': clo, 'bind': {i: val_of(bv, k) for i, bv in bind.items()}, 'where': c.where(), 'arity': len(c.args)})
+                             'args': [val_of(f, k) for f in fields if f[0] not in ('handler', 'handler-elem')],
+                             'closure': (clo_elem[3][k][3:] if clo_elem is not None else clo), 'bind': {i: val_of(bv, k) for i, bv in bind.items()}, 'where': c.where(), 'arity': len(c.args)})
     return rows, problems
 
 
